@@ -193,4 +193,35 @@ theorem inducedRen_injOn (f : Nat → Nat) (hf : Function.Injective f) (a b : Mo
     simp only [hc, Bool.false_eq_true, if_false]
     exact fun e => hf e
 
+/-! ## reaction level: no collisions inside a side -/
+
+theorem concat_rename (f : Nat → Nat) (ms : List Mol) : concat (ms.map (rename f)) = rename f (concat ms) := by
+  unfold concat rename
+  simp only [List.map_map, List.map_flatten, Mol.mk.injEq]
+  constructor <;> rfl
+
+theorem disjointIds_rename (f : Nat → Nat) (hf : Function.Injective f) (ms : List Mol) (h : DisjointIds ms) :
+    DisjointIds (ms.map (rename f)) := by
+  unfold DisjointIds at h ⊢
+  rw [List.pairwise_map]
+  apply h.imp
+  intro a b hab n hn hc
+  rw [ids_rename'] at hn hc
+  obtain ⟨x, hx, rfl⟩ := List.mem_map.mp hn
+  obtain ⟨y, hy, e⟩ := List.mem_map.mp hc
+  have := hf e
+  subst this
+  exact hab y hx hy
+
+/-- `~reaction` of role lists without collisions inside a side is equivariant under every injective renumbering -/
+theorem rxnCompose_rename (f : Nat → Nat) (hf : Function.Injective f) (R A P : List Mol)
+    (hdr : DisjointIds (A ++ R)) (hdp : DisjointIds P) :
+    rxnCompose (R.map (rename f)) (A.map (rename f)) (P.map (rename f)) =
+      mapExcept (renameCGR f) (rxnCompose R A P) := by
+  unfold rxnCompose
+  rw [← List.map_append, unionAll_disjoint _ (disjointIds_rename f hf _ hdr),
+    unionAll_disjoint _ (disjointIds_rename f hf _ hdp), unionAll_disjoint _ hdr, unionAll_disjoint _ hdp,
+    concat_rename, concat_rename]
+  exact compose_rename f hf _ _
+
 end ChythonModel.Proofs.C15
